@@ -5,7 +5,7 @@
    in-hand model (Model/HandRules.v astep). *)
 From Coq Require Import List ZArith Bool Arith String Permutation.
 Import ListNotations.
-From PT Require Import Model.TableMem Model.HandRules Gen.Gen_Locks Proofs.Conc.
+From PT Require Import Model.SeatManager Model.TableMem Model.HandRules Gen.Gen_Locks Proofs.Conc.
 Local Open Scope string_scope.
 
 Definition locked (tbl : list (string * bool)) (m : string) : bool := existsb (fun kb => String.eqb (fst kb) m && snd kb) tbl.
@@ -63,6 +63,50 @@ Proof.
   intros P t0 ops sched Hm Hstep H0. apply concurrent_invariant; [apply membership_callers_lock; exact Hm | exact Hstep | exact H0].
 Qed.
 Print Assumptions C16_bookkeeping_survives_any_burst.
+
+
+(* ---- the seat manager on its own ---- *)
+Definition sm_method (o : SeatManager.op) : string :=
+  match o with
+  | OAssign _ => "AssignSeats" | ORandom _ _ => "RandomAssignSeats" | ORemove _ => "RemoveSeats" | OJoin _ => "JoinPlayers"
+  | OChips _ _ => "UpdatePlayerHasChips" | OInit _ _ => "InitPositions" | ORotate => "RotatePositions"
+  end.
+Definition sm_obj_step (s : sm) (o : SeatManager.op) : sm * SeatManager.res := (snd (SeatManager.step s o), fst (SeatManager.step s o)).
+Definition sm_callers (ops : list SeatManager.op) : list (SeatManager.op * bool) := map (fun o => (o, locked seat_manager_methods (sm_method o))) ops.
+
+(* concurrent seat-manager calls (assignments, removals, ...) through locking methods have the effect of some
+   one-at-a-time order: in particular no seat is booked twice, since no one-at-a-time run of the model does *)
+Theorem C16_concurrent_seat_manager_calls_are_serial : forall s0 ops sched,
+  Forall (fun o => locked seat_manager_methods (sm_method o) = true) ops ->
+  let m := conc_run sm SeatManager.op SeatManager.res sm_obj_step (conc_init sm SeatManager.op SeatManager.res s0 (sm_callers ops)) sched in
+  (forall i t, nth_error (m_threads _ _ _ m) i = Some t -> exists r, t_pc _ _ _ t = PDone _ _ r) ->
+  exists order,
+    Permutation order (seq 0 (List.length ops)) /\
+    m_shared _ _ _ m = fst (seq_run sm SeatManager.op SeatManager.res sm_obj_step s0 (sm_callers ops) order) /\
+    forall i t r, nth_error (m_threads _ _ _ m) i = Some t -> t_pc _ _ _ t = PDone _ _ r ->
+                  In (i, r) (snd (seq_run sm SeatManager.op SeatManager.res sm_obj_step s0 (sm_callers ops) order)).
+Proof.
+  intros s0 ops sched Hl m Hfin.
+  assert (Hall : forall ob, In ob (sm_callers ops) -> snd ob = true).
+  { intros ob Hin. unfold sm_callers in Hin. apply in_map_iff in Hin. destruct Hin as (o & <- & Ho). rewrite Forall_forall in Hl. exact (Hl o Ho). }
+  destruct (serial_effect _ _ _ sm_obj_step s0 (sm_callers ops) Hall sched Hfin) as (order & Hp & E & Hr).
+  exists order. split; [|split; assumption]. unfold sm_callers in Hp. rewrite map_length in Hp. exact Hp.
+Qed.
+Print Assumptions C16_concurrent_seat_manager_calls_are_serial.
+
+(* with C04's invariant (one seat per player, capacity, ...) preserved by every valid one-at-a-time operation, it
+   holds after any burst of locking seat-manager calls *)
+Theorem C16_seat_manager_invariant_survives_any_burst : forall (P : sm -> Prop) s0 ops sched,
+  Forall (fun o => locked seat_manager_methods (sm_method o) = true) ops ->
+  (forall s o, P s -> P (snd (SeatManager.step s o))) -> P s0 ->
+  let m := conc_run sm SeatManager.op SeatManager.res sm_obj_step (conc_init sm SeatManager.op SeatManager.res s0 (sm_callers ops)) sched in
+  (forall i t, nth_error (m_threads _ _ _ m) i = Some t -> exists r, t_pc _ _ _ t = PDone _ _ r) ->
+  P (m_shared _ _ _ m).
+Proof.
+  intros P s0 ops sched Hl Hstep H0. apply concurrent_invariant; [|exact Hstep|exact H0].
+  intros ob Hin. unfold sm_callers in Hin. apply in_map_iff in Hin. destruct Hin as (o & <- & Ho). rewrite Forall_forall in Hl. exact (Hl o Ho).
+Qed.
+Print Assumptions C16_seat_manager_invariant_survives_any_burst.
 
 (* ---- game actions submitted at the same moment ---- *)
 (* the sequential object: the table's view (last action, statistics, hand) stepped by one submitted action with
